@@ -7,6 +7,8 @@ mkdir -p .work evidence
 python3 gen/facts.py || true
 sh coq/mk_project.sh
 ( cd coq && timeout 3000 make -j16 ) || echo "setup: coq build incomplete (checks will report)"
-cp /repo/Cargo.lock harness/Cargo.lock
+REPO="${VERIF_REPO:-/repo}"
+cp "$REPO/Cargo.lock" harness/Cargo.lock
+sed "s|@REPO@|$REPO|" harness/Cargo.toml.in > harness/Cargo.toml
 ( cd harness && CARGO_TARGET_DIR=../.work/target timeout 3000 cargo build --offline --features hooks ) || echo "setup: harness build failed (checks will report)"
 echo "setup done"
